@@ -74,7 +74,7 @@ def deps_record_rule(crate, prop, rule="C03.R5"):
     r = Result(rule, "Dependencies::push inserts Dependency::Type and Dependency::Generics, and append_from inserts Dependency::Transitive, on every path (no early return that skips recording, e.g. for an already interned type)")
     want = {"deps::Dependencies::push": ["Type", "Generics"], "deps::Dependencies::append_from": ["Transitive"]}
     for path, variants in want.items():
-        b = crate.body(path)
+        b = crate.ibody(path)
         if b is None:
             r.fail(prop, "anchor-missing " + path, "function not found")
             continue
@@ -2104,6 +2104,12 @@ def deps_emission_rule(syn, crate, prop, rule):
             "Dependency::Type": "v . visit :: < # ty > ( )"}
     from rules.field_rules import deps_kind_templates
     _, per_kind = deps_kind_templates(crate)
+    if not any(per_kind.get(k) for k in want):
+        # no template could be tied to any kind of entry (the kind is turned into data first - a method name, a flag - and the
+        # tokens are written from that): which call an entry becomes is not read off the templates
+        r.inst(fn=fn["qual"], note="no emitted call could be tied to a kind of entry: undecided")
+        r.fail(prop, "anchor-missing dependency emission per kind", "the templates of the dependency visitor are not chosen by a match on the kind of entry", fn["file"], fn["line"])
+        want = {}
     for key, tpl in want.items():
         got = per_kind.get(key)       # read from MIR: helpers spliced in, independent of arm order and variable names
         ok = got is not None and S.squash(got) == S.squash(tpl)
